@@ -48,27 +48,37 @@ def url_events(ctx, scen, rng):
                 p = HeadPeer(world, dict(OKHEAD), None)
                 peers.append(p)
                 return p
-            w = World(resolver={"*": ["10.9.9.9"]}, peer_factory=factory, fake_tls=True)
-            kind = "ok"
-            with w:
-                ws = websocket.WebSocket()
-                ws.settimeout(2)
-                try:
-                    ws.connect(url)
-                except ValueError:
-                    kind = "ValueError"
-                except Exception as e:
-                    kind = type(e).__name__
-            res = [e for e in w.log if e["ev"] == "resolve"]
-            net = any(e["ev"] in ("resolve", "tsocket", "tconnect") for e in w.log)
-            if kind == "ok" and res and peers:
-                line = bytes(peers[0].req).split(b"\r\n")[0].decode("latin-1").split(" ")
-                got2 = {"kind": "ok", "host": res[0]["host"].lower(), "port": res[0]["port"],
-                        "resource": line[1] if len(line) == 3 else "?", "secure": any(e["ev"] == "tls_wrap" for e in w.log),
-                        "network": net}
-            else:
-                got2 = {"kind": kind, "host": "", "port": 0, "resource": "", "secure": False, "network": net}
-            ev.append({"ev": "url", "c": c, "url": url, "via": "connect", "got": got2})
+            # on a fresh object, and on one that has already been through a complete conversation with another server
+            for reused in ((False, True) if (k % 2 == 0 or not valid) else (False,)):
+                del peers[:]
+                w = World(resolver={"*": ["10.9.9.9"]}, peer_factory=factory, fake_tls=True)
+                kind = "ok"
+                with w:
+                    ws = websocket.WebSocket()
+                    ws.settimeout(2)
+                    mark = 0
+                    if reused:
+                        ws.connect("ws://earlier.test:81/before")
+                        ws.close(timeout=0)
+                        mark = len(w.log)
+                        del peers[:]
+                    try:
+                        ws.connect(url)
+                    except ValueError:
+                        kind = "ValueError"
+                    except Exception as e:
+                        kind = type(e).__name__
+                log = w.log[mark:]
+                res = [e for e in log if e["ev"] == "resolve"]
+                net = any(e["ev"] in ("resolve", "tsocket", "tconnect") for e in log)
+                if kind == "ok" and res and peers:
+                    line = bytes(peers[0].req).split(b"\r\n")[0].decode("latin-1").split(" ")
+                    got2 = {"kind": "ok", "host": res[0]["host"].lower(), "port": res[0]["port"],
+                            "resource": line[1] if len(line) == 3 else "?", "secure": any(e["ev"] == "tls_wrap" for e in log),
+                            "network": net}
+                else:
+                    got2 = {"kind": kind, "host": "", "port": 0, "resource": "", "secure": False, "network": net}
+                ev.append({"ev": "url", "c": c, "url": url, "via": "connect", "got": got2, "reused": reused})
     return ev
 
 
@@ -167,9 +177,9 @@ def main(ctx):
         scen = keep
     ev = url_events(ctx, scen, rng)
     for e, faults in judge_batch(ctx, "C18", ev, "urls"):
-        ctx.deviation(None, "URL %r via %s: %s; got %s" % (e["url"], e["via"], faults, e["got"]), {"event": e, "faults": faults})
+        ctx.deviation(None, "URL %r via %s%s: %s; got %s" % (e["url"], e["via"], " (object used before)" if e.get("reused") else "", faults, e["got"]), {"event": e, "faults": faults})
     for e in ev:
-        ctx.case(("url", e["url"], e["via"]))
+        ctx.case(("url", e["url"], e["via"], e.get("reused", False)))
     dv = dial_events(ctx, rng)
     for e, faults in judge_batch(ctx, "C18", dv, "dials"):
         ctx.deviation(None, "dial with outcomes %s: %s; tried=%s result=%s" % (e["outcomes"], faults, e["tried"], e["result"]),
